@@ -42,7 +42,7 @@ PROPS["C02"] = {
     "thorough": {"budget_s": 300},
     "floors": {
         "quick": {"crash_points": 50000, "forks": 5000, "hdr_change.num_fat_sectors": 100, "hdr_change.num_minifat": 1000, "hdr_change.first_minifat": 500,
-                  "large_scenarios": 4, "large_scenario.crash_points_with_difat_sector": 10, "large_scenario.variant1.crash_points": 4, "large_scenario.variant3.crash_points": 6},
+                  "large_scenarios": 4, "huge.scenarios_passed": 5, "large_scenario.crash_points_with_difat_sector": 10, "large_scenario.variant1.crash_points": 4, "large_scenario.variant3.crash_points": 6},
         "thorough": {"crash_points": 500000, "forks": 50000},
     },
 }
@@ -80,7 +80,7 @@ PROPS["C06"] = {
     "thorough": {"budget_s": 300},
     "floors": {
         "quick": {"scripts": 3000, "seek.end_i64min": 100, "seek.cur_i64min": 100, "seek.start_u64max": 100, "seek.end_i64max": 100, "seek.cur_i64max": 100,
-                  "scripts_big": 10, "differential_scripts_compared": 1000, "fresh_handle_readbacks": 10000},
+                  "scripts_big": 10, "differential_scripts_compared": 1000, "fresh_handle_readbacks": 10000, "huge.scenarios_passed": 5},
         "thorough": {"scripts": 30000, "scripts_big": 300},
     },
 }
@@ -98,7 +98,7 @@ PROPS["C07"] = {
     "thorough": {"budget_s": 300},
     "floors": {
         "quick": {"two_child_removals": 5000, "two_child_removal_with_handle_on.predecessor": 1000, "creations_reusing_slot_with_live_handles": 5000,
-                  "handle_ops_after_slot_reuse": 5000, "checkpoints": 5000},
+                  "handle_ops_after_slot_reuse": 5000, "checkpoints": 5000, "huge.scenarios_passed": 5},
         "thorough": {"two_child_removals": 50000, "two_child_removal_with_handle_on.predecessor": 10000},
     },
 }
